@@ -56,7 +56,8 @@ def input_src(kind, xs):
 def call_src(kind, xs, fn, par):
     a = input_src(kind, xs)
     f = FN_SRC.get(par["f"], "")
-    n = par["n"]
+    # the numeric parameter, now and then held in big representation (its value is what counts)
+    n = ("((2^70 + %d) - 2^70)" if par.get("nrep") == "B" else "%d") % par["n"]
     v = elem_src(par["v"]) if par["v"]["t"] != "n" else "null"
     o = "[" + ", ".join(elem_src(e) for e in par["o"]) + "]"
     infix = {"map": "map", "filter": "filter", "reject": "reject", "partition": "partition", "flat_map": "flat_map",
@@ -88,7 +89,7 @@ def call_src(kind, xs, fn, par):
     if fn == "scan_from":
         return "(%s scan %s from %s)" % (a, f, v)
     if fn in ("group_n", "group'_n", "window", "combinations"):
-        return "(%s %s %d)" % (a, {"group_n": "group", "group'_n": "group'"}.get(fn, fn), n)
+        return "(%s %s %s)" % (a, {"group_n": "group", "group'_n": "group'"}.get(fn, fn), n)
     if fn == "concat":
         return "(%s ++ %s)" % (a, a)
     if fn == "prepend":
@@ -98,25 +99,25 @@ def call_src(kind, xs, fn, par):
     if fn == "pair":
         return "(%s .. %s)" % (a, v)
     if fn == "replicate":
-        return "(%s .* %d)" % (a, n)
+        return "(%s .* %s)" % (a, n)
     if fn == "replicate_r":
-        return "(%d *. %s)" % (n, a)
+        return "(%s *. %s)" % (n, a)
     if fn == "product2":
         return "(%s ** %s)" % (a, o)
     if fn == "repeat":
-        return "(%s ** %d)" % (a, n)
+        return "(%s ** %s)" % (a, n)
     if fn == "repeat_r":
-        return "(%d ** %s)" % (n, a)
+        return "(%s ** %s)" % (n, a)
     if fn == "power":
-        return "(%s ^^ %d)" % (a, n)
+        return "(%s ^^ %s)" % (a, n)
     if fn == "join":
         return "(%s join %s)" % (a, json.dumps(par["s"]))
     if fn == "split":
         return "(%s split %s)" % (a, json.dumps(par["s"]))
     if fn == "flatten_group":
-        return "flatten(%s group %d)" % (a, n)
+        return "flatten(%s group %s)" % (a, n)
     if fn == "transpose_group":
-        return "transpose(%s group %d)" % (a, n)
+        return "transpose(%s group %s)" % (a, n)
     raise ValueError(fn)
 
 
@@ -406,7 +407,10 @@ def rnd_case(rng):
         groups.append((["combinations"], lambda: dict(PAR0, n=rng.randint(0, ln + 1))))
     groups.append((["power"], lambda: dict(PAR0, n=rng.choice([m for m in (0, 1, 2, 3) if ln ** m <= 40]))))
     fns, mk = rng.choice(groups)
-    return kind, xs, rng.choice(fns), mk()
+    par = mk()
+    if rng.random() < 0.2:
+        par["nrep"] = "B"
+    return kind, xs, rng.choice(fns), par
 
 
 def run_driver(rep, lim, tier, seed, wd):
